@@ -63,11 +63,12 @@ constexpr int kPayWords = 8;
 constexpr uint64_t kPubRing = 1 << 12;
 
 // ghost word layout
-constexpr uint64_t kGS = 1ULL;
-constexpr uint64_t kGSIX = 1ULL << 16;
-constexpr uint64_t kGX = 1ULL << 32;
-constexpr uint64_t kGU = 1ULL << 48;  // SIX holders currently inside UpgradeToX
-constexpr uint64_t kGD = 1ULL << 56;  // (former X) holders currently inside DowngradeToSIX
+constexpr uint64_t kGS = 1ULL;          // bits 0-11   shared holders
+constexpr uint64_t kGSIX = 1ULL << 12;  // bits 12-23  SIX holders
+constexpr uint64_t kGX = 1ULL << 24;    // bits 24-35  X holders
+constexpr uint64_t kGU = 1ULL << 36;    // bits 36-41  SIX holders currently inside UpgradeToX
+constexpr uint64_t kGD = 1ULL << 42;    // bits 42-47  (former X) holders currently inside DowngradeToSIX
+constexpr uint64_t kGC = 1ULL << 48;    // bits 48-59  holders whose current grant was obtained by a conversion
 inline uint64_t
 GUnit(int m)
 {
@@ -76,33 +77,38 @@ GUnit(int m)
 inline unsigned
 GS(uint64_t g)
 {
-  return g & 0xFFFF;
+  return g & 0xFFF;
 }
 inline unsigned
 GSIX(uint64_t g)
 {
-  return (g >> 16) & 0xFFFF;
+  return (g >> 12) & 0xFFF;
 }
 inline unsigned
 GX(uint64_t g)
 {
-  return (g >> 32) & 0xFFFF;
+  return (g >> 24) & 0xFFF;
 }
 inline unsigned
 GU(uint64_t g)
 {
-  return (g >> 48) & 0xFF;
+  return (g >> 36) & 0x3F;
 }
 inline unsigned
 GD(uint64_t g)
 {
-  return (g >> 56) & 0xFF;
+  return (g >> 42) & 0x3F;
+}
+inline unsigned
+GC(uint64_t g)
+{
+  return (g >> 48) & 0xFFF;
 }
 inline std::string
 GStr(uint64_t g)
 {
-  return Fmt("{S:%u,SIX:%u,X:%u,inUpgrade:%u,inDowngrade:%u}", GS(g), GSIX(g), GX(g), GU(g),
-             GD(g));
+  return Fmt("{S:%u,SIX:%u,X:%u,inUpgrade:%u,inDowngrade:%u,heldViaConversion:%u}", GS(g), GSIX(g), GX(g), GU(g),
+             GD(g), GC(g));
 }
 
 /*------------------------------------------------------------------------------
@@ -228,6 +234,14 @@ RegGrant(LockBox<L> &b, int mode, int api)
   } else if (mode == kX && GS(prev) > 0) {
     bad = true;
   }
+  if (bad && mode != kS && GC(prev) > 0 && strcmp(prop, "C10") != 0) {
+    // the conflicting holder obtained its current grant through UpgradeToX / DowngradeToSIX: C10 promises that no
+    // other thread obtains SIX or X until that grant ends
+    Violate("C10", Fmt("%s:%s-granted-%s-while-converted-grant-held", g_cls_name, ApiName(api), ModeName(mode)),
+            Fmt("class=%s lock=%d thread=%d obtained %s via %s while another thread still holds the grant it obtained "
+                "through UpgradeToX/DowngradeToSIX; ghost registry %s",
+                g_cls_name, b.index, t.tid, ModeName(mode), ApiName(api), GStr(prev).c_str()));
+  }
   if (bad) {
     Violate(prop,
             Fmt("%s:%s-granted-%s-while-conflicting-grant-held", g_cls_name, ApiName(api),
@@ -241,10 +255,10 @@ RegGrant(LockBox<L> &b, int mode, int api)
 
 template <class L>
 inline void
-UnregGrant(LockBox<L> &b, int mode)
+UnregGrant(LockBox<L> &b, int mode, bool converted = false)
 {
   b.grant_id[t_mon.tid].store(0, kMo);
-  b.ghost.fetch_sub(GUnit(mode), kMo);
+  b.ghost.fetch_sub(GUnit(mode) + (converted ? kGC : 0), kMo);
 }
 
 // SIX -> X: call BeginUpgrade before UpgradeToX(), EndUpgrade after it returned an owning guard
@@ -256,9 +270,9 @@ BeginUpgrade(LockBox<L> &b)
 }
 template <class L>
 inline void
-EndUpgrade(LockBox<L> &b)
+EndUpgrade(LockBox<L> &b, bool was_converted = false)
 {
-  const auto prev = b.ghost.fetch_add(kGX - kGSIX - kGU, kMo);
+  const auto prev = b.ghost.fetch_add(kGX - kGSIX - kGU + (was_converted ? 0 : kGC), kMo);
   auto &t = t_mon;
   t.sigs[(kApiUpgrade * 4 + kX) & 63] |= 1ULL << GClass(prev);
   if (GS(prev) > 0 || GX(prev) > 0 || GSIX(prev) != 1) {
@@ -271,9 +285,9 @@ EndUpgrade(LockBox<L> &b)
 // X -> SIX: call BeginDowngrade before DowngradeToSIX(), EndDowngrade after it returned
 template <class L>
 inline void
-BeginDowngrade(LockBox<L> &b)
+BeginDowngrade(LockBox<L> &b, bool was_converted = false)
 {
-  b.ghost.fetch_add(kGSIX + kGD - kGX, kMo);
+  b.ghost.fetch_add(kGSIX + kGD - kGX + (was_converted ? 0 : kGC), kMo);
 }
 template <class L>
 inline void
